@@ -4,6 +4,7 @@ import OmbottModel.Lemmas.WsgiTrace
 import OmbottModel.Lemmas.WsgiInv
 import OmbottModel.Lemmas.WsgiBody
 import OmbottModel.Lemmas.WsgiFail
+import OmbottModel.Lemmas.AppServe
 /-!
 C03 — Every request gets exactly one well-formed WSGI response.
 Property theorems only; helper lemmas live in `Lemmas/Wsgi*.lean`.  All statements are about
@@ -636,6 +637,80 @@ theorem wsgi_wellformed (app : App) (s : Slots) (r : Req) (hp : r.pathOK = true)
    fun hf hno => wsgi_failure_is_500 app s r hp hf hno,
    wsgi_hooks app s r hp⟩
 
+/-! ### the composed application (`Model/App.lean`): the route result and the header pairs are
+no longer parameters -/
+
+/-- `app_wellformed`: **`wsgi_wellformed` for `App.serve`, with the REAL router and the REAL header
+emission plugged in.**  For every application (hooks, error handlers, one handler program per
+registered callback, given the kwargs), every router state `R` and every request environ with a
+decodable path on which `App.serve` is defined, the response `res = App.serveW cfg R q` is
+`Wsgi.wsgi` run on a request `r` all of whose former parameters are computed: its route result is
+what `Router.handle` (`request.method.upper()`, `request.path`, `to_route`, `RadiRouter.resolve`)
+answers — the handler program of the resolved callback on the kwargs the router produced, 404, or
+405 with the router's `Allow` (`RouteRel`) — and the conjuncts (a)–(h) hold, with
+* (b) strengthened: the header list of the normal path IS `Model/Headers.headerlist` of the final
+  response object (C14's emission: blacklist, transcoding, default `Content-Type`, cookies);
+* (h) read on the router: the handler event occurs iff the router resolved a call.
+The domain hypotheses speak about the programs only (`App.DomainB`, `App.DomainC`): nothing is
+assumed about the route result — the `Allow` value of a 405 included. -/
+theorem app_wellformed (cfg : App.AppConfig) (R : Router.Router) (q : App.Req) (res : Result)
+    (hs : App.serveW cfg R q = .ok res) (hp : (ErrorPage.utf8Decode q.rawPath).isSome = true)
+    (hB : App.DomainB cfg) (hC : App.DomainC cfg) :
+    ∃ r, App.wsgiReq cfg R q = .ok r ∧ res = wsgi cfg.hooks Slots.fresh r ∧
+      App.RouteRel cfg (App.resolved cfg R q) r.route ∧
+      -- (a) exactly one start_response over the whole exchange
+      ((res.events ++ serverEvents res).filter Event.isStart).length = 1 ∧
+      -- (b) status line and header list; the list is `Model/Headers`' emission
+      (∀ line hdrs x, Event.startResponse line hdrs x ∈ res.events →
+        statusLineOK line = true ∧ hdrs.all pairOK = true ∧
+        (x = false → hdrs = Headers.headerlist (App.headersView res.slots.resp))) ∧
+      -- (c) iterable of bytes
+      res.body.all BodyItem.isChunk = true ∧
+      -- (d) framework Content-Length = bytes returned
+      (∀ n, res.fwCL = some n → (q.verb == "HEAD".toList) = false →
+        isBodyless res.slots.resp.code = false → bodyLen res.body = n) ∧
+      -- (e) HEAD / 1xx / 204 / 304: no body
+      (((q.verb == "HEAD".toList) = true → res.body = []) ∧
+       (∀ line hdrs, Event.startResponse line hdrs false ∈ res.events →
+         isBodyless res.slots.resp.code = true → res.body = [])) ∧
+      -- (f) close discipline
+      ((res.events ++ serverEvents res).filterMap Event.closeId =
+        (match castCloser (cast cfg.hooks q.fileWrapper (handle cfg.hooks Slots.fresh r).1
+            (handle cfg.hooks Slots.fresh r).2.2).2 with
+         | some k => [k]
+         | none => [])) ∧
+      -- (g) failures become a 500
+      (handleFlow cfg.hooks r = .exc → errHandlerFor cfg.hooks 500 = none →
+        Event.stderr ∈ res.events ∧
+        ∃ line hdrs x, Event.startResponse line hdrs x ∈ res.events ∧ line.take 4 = "500 ".toList) ∧
+      -- (h) hooks; the handler runs iff the router resolved a call
+      (∃ rest,
+        res.events =
+          (ranUntilFail (enumFrom 0 cfg.hooks.before)).map Event.before ++
+          (if (enumFrom 0 cfg.hooks.before).all (fun p => !p.2.fails) then
+              Event.routed :: (if (App.callOf (App.resolved cfg R q)).isSome then [Event.handler] else [])
+           else []) ++
+          (ranUntilFail (enumFrom 0 cfg.hooks.after).reverse).map Event.after ++ rest ∧
+        (∀ e ∈ rest, e = .stderr ∨ e.isStart = true ∨ e.closeId ≠ none)) := by
+  obtain ⟨r, hr, rfl⟩ := App.serveW_ok hs
+  obtain ⟨url, _, _, hhead, hfw, hpok, _, _, _, hrel⟩ := App.wsgiReq_ok hr
+  have hpr : r.pathOK = true := by rw [hpok]; exact hp
+  obtain ⟨hre, hra⟩ := App.route_domainB hrel hB
+  have hDB : DomainB cfg.hooks r := ⟨hB.1, hB.2.1, hre, hra⟩
+  have hDC : DomainC cfg.hooks r := ⟨hC.1, App.route_domainC hrel hC⟩
+  obtain ⟨ha, hb, hc, hd, he, hf, hg, hh⟩ := wsgi_wellformed cfg.hooks Slots.fresh r hpr hDB hDC
+  refine ⟨r, hr, rfl, hrel, ha, ?_, hc, ?_, ?_, ?_, hg, ?_⟩
+  · intro line hdrs x hm
+    refine ⟨(hb line hdrs x hm).1, (hb line hdrs x hm).2, ?_⟩
+    intro hx
+    subst hx
+    exact App.wsgi_start_headers_view cfg.hooks Slots.fresh r line hdrs hm
+  · intro n hn hhd hbl
+    exact hd n hn (by rw [hhead]; exact hhd) hbl
+  · refine ⟨fun hhd => he.1 (by rw [hhead]; exact hhd), he.2⟩
+  · rw [← hfw]; exact hf
+  · rw [← App.route_isFound hrel]; exact hh
+
 /-- the catch-all branch is modelled because the extracted configuration has it switched on -/
 theorem catchall_on : Gen.wsgiCatchall = true ∧ Gen.wsgiDebug = false := by decide
 
@@ -709,6 +784,58 @@ nothing left for the server to close, empty body -/
 example : (exchange plainApp Slots.fresh (exReq exRoute true)).filterMap Event.closeId = [7] ∧
     (wsgi plainApp Slots.fresh (exReq exRoute true)).body = [] ∧
     (wsgi plainApp Slots.fresh (exReq exRoute true)).closer = none := by decide +kernel
+
+/-! #### the composed application -/
+
+/-- `/a/:x` (GET) and `/b` (PUT) on a fresh router -/
+def exRouter : Router.Router :=
+  Router.Router.run Router.asciiUpper
+    [ .add (fun _ => none) { rule := "/a/:x".toList, methods := ["get".toList], handler := 0 },
+      .add (fun _ => none) { rule := "/b".toList, methods := ["PUT".toList], handler := 1 } ]
+
+/-- `exApp`'s hooks and error handlers; every callback adds a header naming itself and answers with
+the names of its kwargs -/
+def exCfg : App.AppConfig :=
+  { hooks := plainApp,
+    handlers := fun id kw => { effs := [.addHeader "X-Id".toList (natStr id)],
+                               res := .returns (.text (kw.flatMap fun p => p.1 ++ "=".toList)) },
+    upper := Router.asciiUpper, fenv := fun _ _ => none, pr := fun _ => true }
+
+def exEnviron (verb path : String) : App.Req :=
+  { id := 1, verb := verb.toList, rawPath := path.toList.map fun c => UInt8.ofNat c.toNat,
+    env := { fwdProto := none, urlScheme := some "http".toList, fwdHost := none, host := some "h".toList,
+             serverName := none, serverPort := none, query := some "q=<i>".toList, scriptName := none,
+             joinLib := .error .valueError },
+    accept := none, fileWrapper := false }
+
+theorem exCfg_domain : App.DomainB exCfg ∧ App.DomainC exCfg :=
+  ⟨⟨by decide, by decide, fun id _ => ⟨by
+      show ([Eff.addHeader "X-Id".toList (natStr id)]).all Eff.ok = true
+      simp only [List.all_cons, List.all_nil, Eff.ok, Bool.and_true]
+      decide, rfl⟩⟩, ⟨by decide, fun _ _ => rfl⟩⟩
+
+/-- hypotheses of `app_wellformed`: a GET for `/a/v` is inside `App.serve`'s domain, the path
+decodes, the programs are inside the domain; the handler of op 0 runs with the router's kwargs -/
+example :
+    (match App.serveW exCfg exRouter (exEnviron "GET" "/a/v") with
+     | .ok res => res.events.take 2 == [.routed, .handler] && res.body == [.chunk [120, 61]]
+     | .error _ => false) = true ∧
+    (ErrorPage.utf8Decode (exEnviron "GET" "/a/v").rawPath).isSome = true ∧
+    App.callOf (App.resolved exCfg exRouter (exEnviron "GET" "/a/v")) =
+      some ⟨0, "GET".toList, [("x".toList, .str "v".toList)]⟩ ∧
+    App.DomainB exCfg ∧ App.DomainC exCfg :=
+  ⟨by decide +kernel, by decide +kernel, by decide +kernel, exCfg_domain.1, exCfg_domain.2⟩
+
+/-- … and a PUT for the same path is the router's 405 with its `Allow`, a DELETE for `/zz` its 404 -/
+example :
+    (match App.serveW exCfg exRouter (exEnviron "PUT" "/a/v") with
+     | .ok res => res.slots.resp.code == 405 &&
+         res.slots.resp.headers.any (fun h => h.1 == "Allow".toList && h.2 == [.good "GET".toList])
+     | .error _ => false) = true ∧
+    (match App.serveW exCfg exRouter (exEnviron "DELETE" "/zz") with
+     | .ok res => res.slots.resp.code == 404
+     | .error _ => false) = true := by
+  constructor <;> decide +kernel
 
 end NonVacuity
 
